@@ -263,7 +263,7 @@ def anyio_make(case: dict, kind: str) -> Any:
     raise KeyError(f)
 
 
-RUNAWAY = 20000  # a finite input never legitimately produces that many results here
+RUNAWAY = 200000  # a finite input never legitimately produces that many results here
 
 
 async def anyio_call(case: dict, kind: str) -> tuple[list, str | None]:
@@ -418,7 +418,7 @@ def gen_random_long(rng: random.Random, f: str) -> dict:
     if f in ("combinations", "combinations_with_replacement", "permutations"):
         return C((rng.choice([None, -1, 0, 1, 2, 3]),), xs[: rng.randint(0, 6)])
     if f == "product":
-        return C((rng.choice([None, -1, 0, 1, 2]),), ll()[:3])
+        return C((rng.choice([None, -1, 0, 1, 2]),), [x[:4] for x in ll()[:3]])
     if f == "compress":
         return C((), [xs, [rng.randint(0, 2) for _ in range(rng.randint(0, 45))]])
     if f == "count":
@@ -618,7 +618,7 @@ def run(ctx: Ctx) -> Result:
         run_iter_cases(it_corpus, res)
     import time
     now = time.time()
-    budget = max(5.0, min(38.0 if ctx.tier == "quick" else 640.0, ctx.time_left() - 8.0))
+    budget = max(5.0, min(38.0 if ctx.tier == "quick" else 600.0, ctx.time_left() - 8.0))
     focus_tee = isinstance(ctx.focus, dict) and "tee" in ctx.focus
     if focus_tee:
         run_tee(ctx, res, tee_corpus, now + 0.6 * budget)
